@@ -71,8 +71,10 @@ def make_h(tier):
         ig = ctx.pick("ignore_pattern", ("none", "dir1/", "build/", "*.ts", "dir1/file", "dir1/**", "**/file", "**/dir1/", "**/dir2/", "wild-dir1/", "dir1/dir2/"))
         if ig not in ("none", "build/", "dir1/") and d1 not in ("pkg", "build", "buildx", "xbuild", "BUILD", "node_modules", ".hidden", "keep.py"):
             ctx.assume(False)
-        src_kind = ctx.pick("ignore_source", (".thailintignore", "config-ignore", ".thailintignore-next-to-a-config-list",
-                                              "config-ignore-next-to-an-ignore-file")) if ig != "none" else "none"
+        kinds = (".thailintignore", "config-ignore")
+        if not quick or ig in ("dir1/", "*.ts", "**/file"):
+            kinds += (".thailintignore-next-to-a-config-list", "config-ignore-next-to-an-ignore-file")
+        src_kind = ctx.pick("ignore_source", kinds) if ig != "none" else "none"
         explicit = ctx.flag("also_named_explicitly")
         # the command line has its own target handling (files vs directories, --no-recursive): always exercised where explicit
         # files meet a non-recursive directory target, everywhere in the thorough tier
